@@ -59,6 +59,9 @@ type CStep struct {
 	BadParams string `json:"bad_params,omitempty"`
 	// NoSpecs: a Batch without specs ("nil" slice or "empty" non-nil slice).
 	NoSpecs string `json:"no_specs,omitempty"`
+	// Relabel (call): once the call has returned a response, relabel it with the
+	// id of a request that is still pending (Response.SetID, as a proxy would).
+	Relabel bool `json:"relabel,omitempty"`
 	// After: ctxcancel takes effect this many fake nanoseconds later.
 	After int `json:"after,omitempty"`
 }
@@ -345,6 +348,15 @@ func (w *cworld) exec(i int, st CStep) {
 				e.Data, e.ID = rsp.ResultString(), rsp.ID()
 			}
 			w.log(e)
+			if rsp != nil && st.Relabel {
+				// what a proxy does with a finished response (Response.SetID): give
+				// it the id its own caller used - here the id of a call that is
+				// still pending on this client, which must not notice
+				if pend, _ := jrpc2.VerifClientSnapshot(w.cli); len(pend) > 0 {
+					rsp.SetID(pend[0])
+					w.log(CEvent{Kind: "relabel", K: st.K, ID: pend[0]})
+				}
+			}
 		}()
 	case "notify":
 		ctx, cancel := w.ctxFor(st)
